@@ -52,7 +52,7 @@ Definition unmodelled_stream (k : bool * (universe * gen_case)) : bool := modell
 (* Spec/MetaSpec.v judged on what the IMPLEMENTATION emitted: inside the guard of theorem
    C03b_eventgen_matches_metadata the observed events, after the writer's xsi:nil rule, must
    be the events the description prescribes. *)
-From XV Require Import Spec.MetaSpec Model.Builder.
+From XV Require Import Spec.MetaSpec Model.Builder Model.BuilderCorr.
 
 Definition spec_guard (D : mdesc) (pns : cls -> option str) (v : value) : bool :=
   wf_desc D && typed_value D (S (sdepth v)) v && cache_consistent D pns (S (sdepth v)) None None v
@@ -95,3 +95,11 @@ Definition fc_guard_clauses (x : full_case) : list N :=
   ++ (if cache_consistent D (pns_of_list pns) (S (sdepth v)) None None v then [] else [3%N])
   ++ (if token_lists_ok D (S (sdepth v)) v then [] else [4%N])
   ++ (if inherit_consistent D (S (sdepth v)) None None None v then [] else [5%N]).
+
+(* the theorem's conclusion alone (no guard): the MODEL on the MODEL's universe against the specification *)
+Definition fc_model_matches (x : full_case) : bool :=
+  let '(_, _, D, pns, k) := x in
+  spec_matches D k (generate (gc_ignore k) (conv_of_table (gc_table k)) (universe_of D (pns_of_list pns)) (gc_value k)).
+(* the model's universe is the exported one *)
+Definition fc_builder_agrees (x : full_case) : bool :=
+  let '(_, u, D, pns, _) := x in BuilderCorr.universe_eqb (universe_of D (pns_of_list pns)) u.
